@@ -402,6 +402,63 @@ def check_match(r) -> list[Fail]:
         if tuple(chosen) not in got:
             fails.append(Fail("match:identity-embedding-missed", f"{where}: the atoms the pattern was cut from, {tuple(chosen)}, are not among {len(got)} mappings"))
     tally(labels={f"mode={mode}": 1, "embeddings>=2": 1 if len(ref) >= 2 else 0})
+    # ---- the same objects after an in-place edit: the answers must follow the CURRENT graph
+    if not fails and r.get("edit") is not None and mode in ("wildcard", "absent"):
+        from molli.chem import BondType
+
+        ek, ea, eb = r["edit"]
+        edges2, bts2, els2 = list(edges), list(bts), list(els)
+        what = None
+        if ek == "del_bond" and edges2:
+            k_ = ea % len(edges2)
+            u, v = edges2[k_]
+            src.del_bond(src.lookup_bond(u, v))
+            del edges2[k_], bts2[k_]
+            what = f"del_bond({u},{v})"
+        elif ek == "connect" and n >= 2:
+            u, v = ea % n, eb % n
+            if u != v and (min(u, v), max(u, v)) not in edges2:
+                src.connect(u, v, btype=BondType.Single)
+                edges2.append((min(u, v), max(u, v)))
+                bts2.append(1)
+                what = f"connect({u},{v})"
+        elif ek == "element":
+            u = ea % n
+            new_el = ELS[eb % len(ELS)]
+            src.atoms[u].element = new_el
+            els2[u] = new_el
+            what = f"atoms[{u}].element={new_el}"
+        if what is not None:
+            try:
+                got2 = set(tuple(l) for l in src.get_substr_indices(pat))
+            except Exception as e:
+                s_ = exc_sig(e)
+                if s_ is None:
+                    raise
+                return [Fail(f"match-raises-after-edit:{s_}", f"{where} after {what}: {e!r}"[:300])]
+            ref2 = embeddings(n, edges2, els2, len(chosen), pedges, pels)
+            if got2 != ref2:
+                kind = "stale-embeddings-after-edit" if got2 == set(got_idx) and ref2 != set(got_idx) else "wrong-embeddings-after-edit"
+                fails.append(Fail(f"match:{kind}", f"{where} after {what}: {len(got2)} returned, {len(ref2)} expected, {len(got2 ^ ref2)} differ"))
+            # traversal / ring queries on the edited object as well
+            sub: list[Fail] = []
+            adj2 = {i: [] for i in range(n)}
+            for (u, v) in edges2:
+                adj2[u].append(v)
+                adj2[v].append(u)
+            ix = {id(a): i for i, a in enumerate(src.atoms)}
+            s0 = r["seed"] % n
+            refd = ref_bfs(adj2, s0)
+            seq = [(ix[id(a)], d_) for a, d_ in src.yield_bfsd(src.atoms[s0])]
+            _check_seq(seq, {k_: v_ for k_, v_ in refd.items() if k_ != s0}, f"{where} after {what}: yield_bfsd({s0})", sub, "bfsd-after-edit")
+            br = ref_bridges(n, edges2)
+            for b in src.bonds:
+                e_ = frozenset((ix[id(b.a1)], ix[id(b.a2)]))
+                if bool(src.is_bond_in_ring(b)) != (e_ not in br):
+                    sub.append(Fail("is_bond_in_ring-wrong-after-edit", f"{where} after {what}: bond {sorted(e_)}"))
+                    break
+            fails.extend(sub)
+            tally(labels={"requery_after_edit": 1})
     return _dedup(fails)
 
 
@@ -414,6 +471,7 @@ def strat_match(tier):
     return st.fixed_dictionaries({
         "graph": _graph_recipe(24 if tier == "quick" else 40), "mode": st.sampled_from(["wildcard", "wildcard", "own_types", "absent"]),
         "seed": i, "size": i, "grow": st.lists(i, min_size=5, max_size=5), "wild": st.integers(0, 63), "shuffle": st.booleans(),
+        "edit": st.one_of(st.none(), st.tuples(st.sampled_from(["del_bond", "connect", "element"]), i, i).map(list)),
     })
 
 
@@ -425,5 +483,5 @@ LEGS = [
         rule="generated graphs of 1-40 atoms (forest + ring closures inside components, 1-4 components), random elements and bond types, as Connectivity / Molecule / ConformerEnsemble; same non-trivial rule"),
     Leg("match", check_match, classify_match, strategy=strat_match, n={"quick": 800, "thorough": 16000}, shards={"quick": 16, "thorough": 32},
         rule="pattern = connected induced subgraph (2-6 atoms, optionally shuffled) of a generated graph: wildcard mode (bond types Unknown, some elements Unknown) compares the SET of mappings with a brute-force embedder; "
-             "own-type mode requires validity + the identity embedding; absent mode (foreign element) requires the empty set"),
+             "own-type mode requires validity + the identity embedding; absent mode (foreign element) requires the empty set; in two thirds of the cases the source is then edited in place (bond deleted / added, element changed) and queried again"),
 ]
